@@ -918,7 +918,7 @@ class UPPDDLReader:
                 for g in vars_res["params"]:
                     t = types_map[g.value[1] if len(g.value) > 1 else Object]
                     for o in g.value[0]:
-                        forall_variables[o] = up.model.Variable(o, t)
+                        forall_variables[o] = up.model.Variable(o, t, self._env)
                 to_add.append((exp[2], cond, forall_variables))
             else:
                 eff = (
@@ -1167,7 +1167,7 @@ class UPPDDLReader:
                 for g in vars_res["params"]:
                     t = types_map[g.value[1] if len(g.value) > 1 else Object]
                     for o in g.value[0]:
-                        forall_variables[o] = up.model.Variable(o, t)
+                        forall_variables[o] = up.model.Variable(o, t, self._env)
                 to_add.append((eff[2], forall_variables))
             else:
                 start_line, start_col = (
